@@ -90,6 +90,8 @@ T1_FILES = {
     'Properties/T1FilterDispatch.v': ['C02', 'C17', 'C18', 'C10'],
     'Proofs/GenColApplyProofs.v': ['C06', 'C07', 'C18', 'C17'],
     'Properties/T1ColApply.v': ['C06', 'C07', 'C18', 'C17'],
+    'Proofs/GenEvalCtxProofs.v': ['C07', 'C10'],
+    'Properties/T1EvalCtx.v': ['C07', 'C10'],
     'Proofs/GenIoJsonProofs.v': ['C14', 'C17'],
     'Properties/T1IoJson.v': ['C14', 'C17'],
     'Proofs/GenEnumFacProofs.v': ['C17', 'C14', 'C13', 'C09'],
@@ -111,4 +113,5 @@ T1_PROP_FILES = {
     'Properties/T1IoJson.v': ['C14', 'C17'],
     'Properties/T1FilterDispatch.v': ['C02', 'C17', 'C18', 'C10'],
     'Properties/T1ColApply.v': ['C06', 'C07'],
+    'Properties/T1EvalCtx.v': ['C07', 'C10'],
 }
